@@ -399,6 +399,14 @@ n == %d { cancel() } END { print n, m }`, 1+K%2000), "live")
 	c.lines = 2*(1+K%500) + 900
 	c.mustCtx = true
 	add(c)
+	// next / nextfile executed by a function called from a pattern (single and range): abandons the record
+	c = mk("rules-next-in-pattern", f(`function sk(v) { if (v %% 2) next; return 1 } BEGIN { n = 0 } { n++ } sk(n) { R[0] = n } n == %d { cancel() } END { print n }`, 2*(1+K%400)), "live")
+	c.lines = 2*(1+K%400) + 700
+	c.mustCtx = true
+	add(c)
+	c = mk("rules-next-in-range-pattern", f(`function s3(v) { if (v %% 5 == 0) next; if (v == %d) nextfile; return v %% 3 == 0 } BEGIN { n = 0; m = 0 } { n++ } s3(n), s3(n + 1) { m++; R[2] = m } n == %d { cancel() } { R[0] = n } END { print n, m }`, 1+K%300+20+K%60, 1+K%300), "live")
+	c.lines = 1 + K%300 + 500 // nextfile (the only file is stdin: input ends) comes 20..79 records after cancel()
+	add(c)
 	c = mk("end-block", f(`{ n++ } END { for (i = 0; i < %d; i++) { if (i == %d) { R[1] = i; cancel() } R[0] = i } print i }`, M, K), "live")
 	c.lines, c.kmin, c.mustCtx = 5, 10, M-K > 400
 	add(c)
